@@ -133,7 +133,8 @@ def repo_tests_under_monitor(ctx, accept):
             ctx.violate(v["clause"], v["detail"], v["case"])
 
 
-HISTORIES = ["fresh", "fresh", "fresh", "solve_then_move_leaf", "solve_then_phase_conf", "solve_then_change_comp", "index_gaps"]
+HISTORIES = ["fresh", "fresh", "fresh", "solve_then_move_leaf", "solve_then_phase_conf", "solve_then_change_comp", "index_gaps",
+             "identity_change_comp"]
 
 
 def build_with_history(ctx, spec, mode, hseed):
@@ -201,6 +202,20 @@ def build_with_history(ctx, spec, mode, hseed):
                 em[c["name"]]["phase"] = None
             ctx.count("history", mode)
             return eff, so
+    if mode == "identity_change_comp":
+        # some components are replaced by identical ones: same final structure, but the name / rail / group
+        # registries (dicts in insertion order) are no longer in node-index order
+        so = fresh(spec)
+        if rng.random() < 0.5:
+            analyse(so)
+        cands = [c for c in spec["comps"] if c["kind"] != "PMux"]
+        rng.shuffle(cands)
+        for c in cands[: rng.randint(1, 3)]:
+            so.change_comp(c["name"], comp=S.make_comp(ns, c), group=c.get("group", ""), rail=c.get("rail", ""))
+            if c.get("phase") is not None:
+                so.set_comp_phases(c["name"], copy.deepcopy(c["phase"]))
+        ctx.count("history", mode)
+        return spec, so
     if mode == "index_gaps":
         # scratch components added right after the first source and deleted at the very end: the node indices they
         # occupied stay free, so the solver's vectors (indexed by node index) contain holes
